@@ -114,3 +114,27 @@ Definition off_seg (s : PathSeg R) (p : Point R) : Prop :=
 
 Definition topological_winding (segs : list (PathSeg R)) (p : Point R) : R :=
   fold_right Rplus 0 (map (fun s => seg_turning s p) segs) / (2 * PI).
+
+(** ** The topological winding number of a closed polygon (angle sum)
+
+    [edge_dtheta p s e] is the signed angle, in (-pi, pi], that the directed edge s -> e subtends at p:
+    atan2 (cross a b) (dot a b) for a = s - p, b = e - p (counter-clockwise positive in (x right, y up) axes;
+    it is pi only when p lies strictly between s and e). The winding number of the closed polygon
+    v0, v1, ..., vn about p is the sum over its edges (the closing edge vn -> v0 included) divided by 2 pi. *)
+Definition edge_dtheta (p s e : Point R) : R :=
+  let ax := px s - px p in let ay := py s - py p in
+  let bx := px e - px p in let by_ := py e - py p in
+  Ratan2 (ax * by_ - ay * bx) (ax * bx + ay * by_).
+
+Definition polygon_angle_sum (v0 : Point R) (vs : list (Point R)) (p : Point R) : R :=
+  fold_right Rplus 0 (map (fun se => edge_dtheta p (fst se) (snd se)) (cyc_edges v0 vs)).
+
+Definition polygon_topological_winding (v0 : Point R) (vs : list (Point R)) (p : Point R) : R :=
+  polygon_angle_sum v0 vs p / (2 * PI).
+
+(* p lies on the closed segment [s, e] *)
+Definition on_edge (s e p : Point R) : Prop :=
+  exists t, 0 <= t <= 1 /\ px p = px s + t * (px e - px s) /\ py p = py s + t * (py e - py s).
+
+Definition off_polygon (v0 : Point R) (vs : list (Point R)) (p : Point R) : Prop :=
+  forall se, In se (cyc_edges v0 vs) -> ~ on_edge (fst se) (snd se) p.
